@@ -438,7 +438,7 @@ def build_expr(pg, toks, pos, amap, P):
 
 
 FUNC_CTX = ["f_direct", "f_join", "f_partial", "f_loop"]
-TEMPL_CTX = ["t_direct", "t_constrain", "t_local", "t_loop", "t_join", "t_array_if", "t_array_seq", "t_operand_join", "t_port"]
+TEMPL_CTX = ["t_direct", "t_constrain", "t_local", "t_loop", "t_join", "t_array_if", "t_array_seq", "t_operand_join", "t_port", "t_array_loop"]
 
 
 def expr_program(toks, ctx, P):
@@ -607,6 +607,37 @@ def expr_program(toks, ctx, P):
             else:
                 kids.append(seti("arr", 1, lit_expr(1), 1))
                 kids.append(simple("nop", "o1", idx_expr("arr", 0), "o1 <-- "))
+        elif ctx == "t_array_loop":
+            # a local array untouched before a loop, two element updates of different degree in the body (the constant one
+            # first), a read of the array between them, used after the loop
+            def idx_expr2(arr, i):
+                ii = num(i)
+                ix = pg.node({"k": "idx", "x": arr, "l": ii})
+                t = "%s[%d]" % (arr, i)
+                return (ix, t, [(ii, len(arr) + 1, len(arr) + 2), (ix, 0, len(t))])
+
+            def seti2(arr, i, e3, ind):
+                ii = num(i)
+                ei, et, rg = e3 if isinstance(e3, tuple) else build_expr(pg, e3, [0], amap, P)
+                si = pg.stmt({"k": "seti", "x": arr, "e": ei, "e2": ii})
+                pre = "%s[%d] = " % (arr, i)
+                lines.append((ind, pre + et + ";", rg, si, len(pre)))
+                return si
+            da = pg.stmt({"k": "decla", "x": "arr", "t": 2})
+            lines.append((1, "var arr[2];", [], da, 0))
+            kids.append(da)
+            kids.append(simple("set", "w", lit_expr(0), "var w = "))
+            kids.append(simple("set", "i", lit_expr(0), "var i = "))
+            c = simple("wh", "", binx("lesser", atom_expr(var("i")), lit_expr(2)), "while (", ind=1)
+            lines[-1] = (1, lines[-1][1][:-2] + ") {", lines[-1][2], lines[-1][3], lines[-1][4])
+            b1 = seti2("arr", 0, lit_expr(1), 2)
+            b2 = simple("set", "w", idx_expr2("arr", 1), "w = ", ind=2)
+            b3 = seti2("arr", 1, toks, 2)
+            b4 = simple("set", "i", binx("add", atom_expr(var("i")), lit_expr(1)), "i = ", ind=2)
+            lines.append((1, "}", [], 0, 0))
+            pg.stmts[c - 1]["t"] = pg.stmt({"k": "blk", "kids": [b1, b2, b3, b4]})
+            kids.append(c)
+            kids.append(simple("nop", "o1", atom_expr(var("w")), "o1 <-- "))
         elif ctx == "t_join":
             kids.append(simple("set", "w", toks, "var w = "))
             c = simple("if", "", binx("eq", atom_expr(var("n")), lit_expr(1)), "if (", ind=1)
@@ -811,7 +842,7 @@ def run_check(prop, tier, want, budgets=False):
                         text, prog, ranges, span = instantiate(x["toks"], P, seed * 104729 + kk * 7 + j, template)
                         progs.append((text, prog, ranges, span))
         # ---- second family: every expression of ExprGen.tla in the data-flow contexts
-        ctxs = {"C06": FUNC_CTX, "C07": TEMPL_CTX, "C20": ["f_join", "f_loop", "t_loop", "t_join", "t_array_if", "t_operand_join"]}[prop]
+        ctxs = {"C06": FUNC_CTX, "C07": TEMPL_CTX, "C20": ["f_join", "f_loop", "t_loop", "t_join", "t_array_if", "t_operand_join", "t_array_loop"]}[prop]
         k3 = set()          # programs with three indeterminates (in1, in2 and a component port)
         ndepth1 = len(expr_cases) - len(deep[:ndeep])
         for j, ec in enumerate(expr_cases):
